@@ -27,8 +27,8 @@ extern "C" {
 #endif
 const char *verif_property = C15_PROPERTY;
 const char *verif_class_names[] = { "wrapped_and_dropped", "dump_mid_sequence", "too_long_record", "truncated_file", "header_word_damaged", "chunk_header_damaged",
-	"record_field_damaged", "random_bytes", "not_a_dump", "old_format_header", "hash_valid_but_damaged", "print_rejected_cleanly", "print_partial_then_error", "many_records", "two_fields_damaged", NULL };
-enum { K_WRAP, K_MID, K_LONG, K_TRUNC, K_HDR, K_CHUNK, K_FIELD, K_RAND, K_NOTDUMP, K_OLD, K_HASHOK, K_REJ, K_PARTIAL, K_MANY, K_TWOFIELDS };
+	"record_field_damaged", "random_bytes", "not_a_dump", "old_format_header", "hash_valid_but_damaged", "print_rejected_cleanly", "print_partial_then_error", "many_records", "two_fields_damaged", "printed_text_fills_reader_buffer", NULL };
+enum { K_WRAP, K_MID, K_LONG, K_TRUNC, K_HDR, K_CHUNK, K_FIELD, K_RAND, K_NOTDUMP, K_OLD, K_HASHOK, K_REJ, K_PARTIAL, K_MANY, K_TWOFIELDS, K_WIDEPRINT };
 const char *verif_rule =
 	"case = blackbox size, a sequence of generated log records (function, line, priority, tags, printf format + arguments incl. over-long ones) with dumps at generated moments, "
 	"each dump printed and compared record by record; then 8-40 damaged variants of the last dump (truncation lengths biased to field boundaries, each header word, chunk size/magic words, "
@@ -207,7 +207,15 @@ extern "C" int verif_case(const uint8_t *data, size_t size, struct verif_report 
 			keep.push_back(s); const char *sp = keep.back().c_str();
 			switch (style) {
 			case 0: snprintf(buf, sizeof buf, "%s", sp); log_rec(fnp, "file.c", "%s", w.prio, w.line, w.tags, sp); break;
-			case 1: snprintf(buf, sizeof buf, "val=%d", a); log_rec(fnp, "file.c", "val=%d", w.prio, w.line, w.tags, a); break;
+			case 1:
+				if ((unsigned)a % 4 == 0) {	/* a small record whose text grows on printing: a field width around the reader's 512-byte message buffer */
+					int W = 440 + (int)(((unsigned)a >> 8) % 90);
+					char f[32]; snprintf(f, sizeof f, "[%%0%dd]", W); keep.push_back(f); const char *fp = keep.back().c_str();
+					snprintf(buf, sizeof buf, fp, a); log_rec(fnp, "file.c", fp, w.prio, w.line, w.tags, a);
+					if (W + 2 >= QB_LOG_MAX_LEN - 1) VCLASS(r, K_WIDEPRINT);
+					break;
+				}
+				snprintf(buf, sizeof buf, "val=%d", a); log_rec(fnp, "file.c", "val=%d", w.prio, w.line, w.tags, a); break;
 			case 2: snprintf(buf, sizeof buf, "%d %s", a, sp); log_rec(fnp, "file.c", "%d %s", w.prio, w.line, w.tags, a, sp); break;
 			case 3: snprintf(buf, sizeof buf, "plain text %d", 7); log_rec(fnp, "file.c", "plain text 7", w.prio, w.line, w.tags); break;
 			case 4: snprintf(buf, sizeof buf, "%5.2f|%s|%lu", a / 7.0, sp, (unsigned long)a * 3); log_rec(fnp, "file.c", "%5.2f|%s|%lu", w.prio, w.line, w.tags, a / 7.0, sp, (unsigned long)a * 3); break;
